@@ -40,6 +40,25 @@ pub fn c01_case(cx: &mut Ctx, c: u32, l: u32, pk: PK, ops: &[Op], kind: &str) {
     let mut sys = Sys::new(c, l, pk);
     // record calls (not snapshots): the call in flight names the operation that panicked
     sys.set_recording(true, false);
+    // every 64th parser case measures how much of the 32 KiB coroutine stack gets used: a BEL
+    // (no effect on the screen) yields a stack address inside a listener call, the dead part
+    // of the stack below it is painted, and the paint is inspected after the case
+    let mut painted: Option<(usize, usize)> = None;
+    if pk != PK::None && cx.stats.evaluations % 64 == 0 && std::env::var("VERIF_NO_PAINT").is_err() {
+        if sys.try_apply(&Op::Feed("\x07".into())).is_ok() {
+            let sp = sys.t().sp_min;
+            if sp != usize::MAX {
+                if let Some((lo, hi)) = crate::sys::small_rw_mapping_of(sp) {
+                    crate::sys::paint_stack(lo, sp);
+                    painted = Some((lo, hi));
+                }
+            }
+            let mut t = sys.t();
+            t.ev.clear();
+            t.sp_min = usize::MAX;
+            t.sp_max = 0;
+        }
+    }
     let key = format!("{}|{:?}|{}x{}", kind, pk, if c <= 10 { c } else { 99 }, if l <= 6 { l } else { 99 });
     cx.stats.clause("case-run");
     let mut nontrivial = false;
@@ -80,6 +99,12 @@ pub fn c01_case(cx: &mut Ctx, c: u32, l: u32, pk: PK, ops: &[Op], kind: &str) {
         t.sp_max = 0;
     }
     cx.stats.eval(&key, nontrivial);
+    if let Some((lo, hi)) = painted {
+        let hw = crate::sys::stack_high_water(lo, hi) as u64;
+        cx.stats.max("max_coroutine_stack_high_water_bytes", hw);
+        cx.stats.max("max_coroutine_stack_size_bytes", (hi - lo) as u64);
+        cx.stats.count("coroutine_stack_measurements", 1);
+    }
     // ---- liveness probe -------------------------------------------------------------------
     sys.set_recording(false, false);
     let lines_now = sys.t().scr.lines as usize;
